@@ -9,6 +9,7 @@ import importlib
 from ..core import check, Violation
 
 ID = "C04"
+IMPORTS = ['rig.routing_table.minimise', 'rig.routing_table.ordered_covering']
 LEVEL = "exploration"
 TECHNIQUE = ("runtime post-condition monitor: exhaustive first-match lookup of "
              "every distinguishable key in original vs minimised table")
